@@ -156,7 +156,7 @@ CLAIMS = {
     "C19": ("exploration", "Bounded stand-in for the property as stated: the coherence invariant (tree shape, id map = reachable nodes with "
             "ids, path<->id inverse) is an inductive predicate over a recursive structure that pyvc's first-order obligations cannot "
             "express; all sequences of <= 2 (thorough: 3) cache calls plus seeded random sequences, both case modes, invariant checked "
-            "after every call. One known finding (id of an ancestor/descendant re-used). In addition eleven deductive lemmas on the "
+            "after every call. One known finding (id of an ancestor/descendant re-used). In addition twelve deductive lemmas on the "
             "non-recursive id-map maintenance, over an id map of arbitrary content (contracts/cache_laws.py; discharged obligations, "
             "reported separately from the bounded part and not raising the level): _set_oid evicts the previous holder of an id "
             "first and then binds an id-less node in place / replaces a node that carries another id; _delete of a file node unlinks "
@@ -168,7 +168,7 @@ CLAIMS = {
             "path lookup resolves, neither changes a binding; _rename refuses the root before touching anything and otherwise detaches the "
             "node first, deletes nothing but the new path (always, when there is nothing to move) and inserts the same node there last; set_metadata replaces the "
             "metadata of exactly the node resolved; create / mkdir make one node of the right type with the id given and insert it at the "
-            "provider-normalised path.",
+            "provider-normalised path; add_child files a child under its own name and changes no other slot.",
             "Exhaustive only up to the stated sequence length. Lemmas: delete / __make_node / Node.full_path (and, in the _update lemma, "
             "_get_node / _delete / _set_oid / set_metadata; in the _rename lemma _get_node / _delete / delete / __insert_node / _check) "
             "are arbitrary callees; "
